@@ -224,7 +224,8 @@ impl LuaDeclarationTree {
                 false
             }
             LuaScopeKind::LocalOrAssignStat => {
-                for child in scope.get_children() {
+                // closest first: in `local x, x = 1, 2` the later `x` shadows the earlier one
+                for child in scope.get_children().iter().rev() {
                     if let ScopeOrDeclId::Decl(decl_id) = child
                         && f(decl_id.into())
                     {
